@@ -229,3 +229,36 @@ def universal(rng, nif=None, length=None, with_glob_changes=True):
     for i in range(nif):
         ops.append('dump %d' % i)
     return ops
+
+
+# ---------------------------------------------------------------------------------------------------------------
+# Small scope, exhaustively: ALL sequences up to a given length over an alphabet of representative frames (one per
+# frame type x sender x path x service that the handlers distinguish).  Used by the frame-level checks as an exhaustive
+# slice of the correspondence (and of their predicates): every reachable combination of "what came before" up to depth.
+# ---------------------------------------------------------------------------------------------------------------
+def alphabet(own=OWN):
+    A, B, X = STATIONS[0], STATIONS[1], STATIONS[2]
+    S1, R1, S2, R2 = '0a0000000001', '0b0000000001', '0a0000000002', '0b0000000002'
+    return [
+        ('dA', discover(A, 1, 1)), ('dAx', discover(A, 2, 2, eth_src=X)), ('dB', discover(B, 1, 3)), ('dA1', discover(A, 1, 4, tos=1)), ('dB1', discover(B, 7, 5, tos=1)),
+        ('rA', reset(A)), ('rB1', reset(B, tos=1)),
+        ('eA', emit(A, own, 9, [(1, 1, S1, B)])), ('eB', emit(B, own, 10, [(0, 0, S2, A)])), ('eAx', emit(A, own, 11, [(1, 0, S1, own), (0, 2, S2, X)], eth_src=X)),
+        ('p1', probe(S1, own, R1, own)), ('t2', probe(S2, BCAST, R2, own, train=True)), ('pO', probe(S1, own, R1, B)),
+        ('qA', query(A, own, 20)), ('qBx', query(B, own, 21, eth_src=X)),
+        ('lA', qltlv(A, own, 30, 0x0e, 0)), ('lB1', qltlv(B, own, 31, 0x0e, 1, tos=1)), ('lAf', qltlv(A, own, 32, 0x11, 0)), ('lAh', qltlv(A, own, 33, 0x13, 0)),
+        ('lA0', qltlv(A, own, 0, 0x0e, 0)),
+        ('hB', hello(B, 3, A, A)), ('f2', raw(2, 0, BCAST, B, BCAST, B, 6, '00050000')), ('c0', raw(0, 9, own, A, own, A, 7)),
+    ]
+
+
+def small_scope(depth, symbols=None, mtu=576):
+    import itertools
+    al = alphabet()
+    if symbols:
+        al = [a for a in al if a[0] in symbols]
+    head = [iface_line(0, mtu=mtu), glob_line(icon='gen:600:1', fname='4c004c00', hwid='41004200')]
+    out = []
+    for d in range(1, depth + 1):
+        for seq in itertools.product(al, repeat=d):
+            out.append(('ss_' + '_'.join(s[0] for s in seq), head + ['rx 0 %s zero' % s[1] for s in seq] + ['dump 0']))
+    return out
